@@ -179,6 +179,9 @@ func (e *Environment) MeshNetworks() *meshconfig.MeshNetworks {
 func (e *Environment) SetPushContext(pc *PushContext) {
 	e.mutex.Lock()
 	defer e.mutex.Unlock()
+	if pc != nil && e.pushContext != nil && pc != e.pushContext {
+		pc.seq = e.pushContext.seq + 1
+	}
 	e.pushContext = pc
 }
 
